@@ -3,7 +3,7 @@ import ast
 
 from .. import terms as T
 from ..lib import parent_map, writers_of_attr, reads_of_attr, calls_named, summarise, heap_writes, normal, V, A
-from ..symex import default_policy
+from ..symex import default_policy, MUTATORS
 from ..terms import fmt
 
 SET_METHODS = {'union', 'intersection', 'difference', 'symmetric_difference', 'copy'}
@@ -459,6 +459,18 @@ def memoisation(ctx):
                     if isinstance(b, ast.Attribute) and isinstance(b.value, ast.Name) and b.value.id == 'self':
                         ctx.violation('C18.memo', 'stateless components keep no state between calls (%s)' % m.qn, m.site(n),
                                       'self.%s is written outside the constructor: results depend on the history of earlier queries' % b.attr, key='C18.memo|state|%s|%s' % (m.qn, b.attr))
+                # in-place growth of a container held in a field is the same thing (self._seen.append(x), self._cache.setdefault(k, v), ...)
+                if isinstance(n, ast.Call) and isinstance(n.func, ast.Attribute) and n.func.attr in (MUTATORS | {'setdefault', 'add', 'discard', 'popitem', 'appendleft', 'sort', 'reverse'}):
+                    b = n.func.value
+                    while isinstance(b, ast.Subscript):
+                        b = b.value
+                    if isinstance(b, ast.Attribute) and isinstance(b.value, ast.Name) and b.value.id == 'self':
+                        tys = M.expr_types(m, n.func.value, M.local_env(m))
+                        repo_typed = any(M.cls(t_) is not None and M.cls(t_).lookup(n.func.attr) is not None for t_ in tys)
+                        if not repo_typed:
+                            ctx.violation('C18.memo', 'stateless components keep no state between calls (%s)' % m.qn, m.site(n),
+                                          'self.%s is grown in place (.%s) outside the constructor: results depend on the history of earlier queries' % (b.attr, n.func.attr),
+                                          key='C18.memo|state|%s|%s' % (m.qn, b.attr))
     ctx.holds('C18.memo', 'statelessness scan of pricing/alpha/sizing components', None)
 
 
